@@ -5,6 +5,14 @@ import json, os, subprocess
 ROOT = os.path.dirname(os.path.dirname(os.path.abspath(__file__)))
 
 CLAIMED = {
+  "C23": dict(engine="E1 netsim1", level="exploration", design="§4 C23, Appendix A",
+      technique="deterministic simulation of a real agent vs. a simulated (spec-driven, partly Byzantine) peer over two real multiplexers on seeded pipes; per-state sweep of every message through send_message/recv_message plus high-level moves judged by spec automata",
+      text="17 protocol x role agents of the original stack converse for up to 40 steps with a simulated peer; at each reached state every message variant is offered to send_message and delivered to recv_message (verdict must match the spec's agency/transition table, accepted sends must reach the peer unchanged, raw calls must not move the state), then a legal or illegal move is taken through the high-level API and the resulting state compared with the spec successor.",
+      note="N2C handshake/chainsync share generic code with N2N and are not driven separately; agents with private raw API are judged through high-level methods only. Six KNOWN-FINDING signatures (tx-monitor single Busy state)."),
+  "C26": dict(engine="E4 histsim + E1 netsim1", level="exploration", design="§4 C26",
+      technique="deterministic history simulation vs. Vec<Point> reference model; plus two-node chain-sync simulation with a forking producer feeding the real client and buffer",
+      text="Operation histories (<= 200 ops over 2..9 points, forcing duplicates and misses) are applied to the real RollbackBuffer and a list model compared after every step; a second batch obtains the roll-forward/backward history from a simulated forking chain-sync server through the real N2NClient over real multiplexers.",
+      note="With duplicate points the model accepts truncation after any occurrence (the statement does not say which)."),
   "C42": dict(engine="E3 disksim", level="exploration", design="§4 C42, Appendix B",
       technique="deterministic simulation of a writer model of cardano-node's ImmutableDB interleaved with the real reader; single-copy-log reference model",
       text="Per run a seeded database is written into a tmpfs directory by a model of the node's append path (real blocks, seeded chunk boundaries, empty slots, chunk numbers); reader operations run while the writer appends / finalises / opens chunks between reader steps; results are compared with a single-copy log of the immutable chunks at listing time (full read, tip, exact / fuzzy / absent points, Origin).",
@@ -51,7 +59,7 @@ CLAIMED = {
       note="Trusts blake2b/ed25519 of pallas-crypto (used on both sides) and the hand-written strict CBOR walker. Single actor; no scheduler/clock/transport."),
 }
 
-PENDING = {k: 'claimed in DESIGN.md; check under construction (not yet registered)' for k in 'C09 C12 C13 C23 C26 C39 C40'.split()}  # id -> reason while a claimed check is still being built
+PENDING = {k: 'claimed in DESIGN.md; check under construction (not yet registered)' for k in 'C09 C12 C13 C39 C40'.split()}  # id -> reason while a claimed check is still being built
 
 NA = {
  "C01": "Flat encoder/decoder are in-memory functions of a value sequence; bit alignment depends on the values written, not on any schedule, stream, clock or fault.",
